@@ -852,6 +852,8 @@ func childMain() {
 			res = childReent(sc)
 		case "dslow":
 			res = childDSlow(sc)
+		case "dcancel":
+			res = childDCancel(sc)
 		}
 	}()
 	b, _ := json.Marshal(res)
@@ -1306,6 +1308,12 @@ func main() {
 		k := vgen.Pick(r, append(append([]string{}, traceKinds[1:]...), logKinds...))
 		scs = append(scs, scenario{Kind: "dstorm", Kinds: []string{k}, N: o.Count(150, 1000), G: r.Range(2, 6), Seed: r.U64()})
 	}
+	for i := 0; i < o.Count(48, 480); i++ { // first Shutdown with an already-cancelled context, then used and shut down again
+		scs = append(scs, genDCancel(r, i))
+	}
+	for i := 0; i < o.Count(6, 40); i++ { // OnEnd callers racing ONE Shutdown of a simple span processor, exporter 1-5 ms per export
+		scs = append(scs, scenario{Kind: "dslow", Kinds: []string{"PSimple XMem"}, N: o.Count(25, 100), G: r.Range(3, 8), Slow: r.Range(1, 5), Seed: r.U64()})
+	}
 	for i := 0; i < o.Count(6, 40); i++ { // the provider's Shutdown overlapping a direct one, slow exporter (50-200 ms per export)
 		scs = append(scs, scenario{Kind: "dslow", Kinds: []string{[]string{"PBatch XMem", "PSimple XMem", "PBatch XMem"}[i%3]}, N: o.Count(4, 12), G: r.Range(2, 5), Slow: r.Range(50, 200), Seed: r.U64()})
 	}
@@ -1474,6 +1482,11 @@ func main() {
 		if sc.Kind == "reent" {
 			desc["observed"] = oc.res
 			w.Add(reentCoq(sc, &oc.res), desc, kind, true)
+			continue
+		}
+		if sc.Kind == "dcancel" {
+			desc["observed"] = oc.res
+			w.Add(dcancelCoq(sc, &oc.res), desc, kind, true)
 			continue
 		}
 		if sc.Kind != "storm" && len(oc.res.Obs) != len(sc.Ops) {
